@@ -71,6 +71,13 @@ fn dec_all(bytes: &[u8]) -> Result<(Vec<Amf0Value>, usize), String> {
 fn nest(kind: u8, depth: usize) -> Amf0Value { let mut v = Amf0Value::Null; for _ in 0..depth { v = if kind == 0 { Amf0Value::StrictArray(vec![v]) } else { let mut m = HashMap::new(); m.insert("a".to_string(), v); Amf0Value::Object(m) }; } v }
 
 fn boundary_values() -> Vec<Vec<Amf0Value>> {
+    let mut wide: Vec<Vec<Amf0Value>> = vec![];
+    // BREADTH, not depth: many sibling EMPTY containers followed by one more container (nothing is nested deeper than two levels)
+    for n in [127usize, 128, 129, 200, 1000] {
+        let mut a: Vec<Amf0Value> = (0..n).map(|_| Amf0Value::StrictArray(vec![])).collect(); a.push(Amf0Value::StrictArray(vec![Amf0Value::Null])); wide.push(a);
+        let mut o: Vec<Amf0Value> = (0..n).map(|_| Amf0Value::Object(HashMap::new())).collect(); let mut m = HashMap::new(); m.insert("k".to_string(), Amf0Value::StrictArray(vec![])); o.push(Amf0Value::Object(m)); wide.push(o);
+        wide.push(vec![Amf0Value::StrictArray((0..n).map(|i| if i % 2 == 0 { Amf0Value::StrictArray(vec![]) } else { Amf0Value::Object(HashMap::new()) }).collect()), Amf0Value::StrictArray(vec![Amf0Value::Object(HashMap::new())])]);
+    }
     let mut out: Vec<Vec<Amf0Value>> = vec![];
     let nums = [0u64, 1, 0x8000000000000000, 0x7FF0000000000000, 0xFFF0000000000000, 0x7FF8000000000001, 0xFFFFFFFFFFFFFFFF, 0x3FF0000000000000, 0x400921FB54442D18];
     out.push(nums.iter().map(|b| Amf0Value::Number(f64::from_bits(*b))).collect());
@@ -108,6 +115,7 @@ fn boundary_values() -> Vec<Vec<Amf0Value>> {
         let s = format!("{}{}", "a".repeat(pad), "€".repeat((total + 8) / 3));
         out.push(vec![Amf0Value::Utf8String(s.clone())]); out.push(vec![obj(s, Amf0Value::Null)]);
     } }
+    out.extend(wide);
     out
 }
 fn c04() {
